@@ -108,11 +108,67 @@ void vh_ctx_free(vh_ctx_t * v) {
     free(v);
 }
 
+/* ---- decoy: a second, unrelated context of the same process ----------------------------------------------------------
+ * Every piece of library state lives in a scpi_t (or in the caller's buffers); nothing may be shared between two contexts.
+ * A check that enables the decoy gets, on every n-th input call and on every n-th handler entry, one fixed message run on a
+ * private context with its own command table, unit table, buffers and queue. The decoy's own behaviour is fixed and is
+ * checked; any file-scope or function-static state in the library shows either there or in the check's own oracle. */
+static vh_ctx_t * decoy; static unsigned decoy_every, decoy_tick, decoy_busy; static uint64_t decoy_runs;
+static int decoy_log_n; static char decoy_log[160];
+static scpi_result_t decoy_num(scpi_t * c) {
+    scpi_number_t n; int32_t nums[2] = { -1, -1 }; char t[40]; size_t k;
+    SCPI_CommandNumbers(c, nums, 2, 9);
+    if (!SCPI_ParamNumber(c, scpi_special_numbers_def, &n, TRUE)) return SCPI_RES_ERR;
+    k = SCPI_NumberToStr(c, scpi_special_numbers_def, &n, t, sizeof t);
+    decoy_log_n += snprintf(decoy_log + decoy_log_n, sizeof decoy_log - (size_t) decoy_log_n, "[%ld,%ld|%.*s]", (long) nums[0], (long) nums[1], (int) k, t);
+    return SCPI_RES_OK;
+}
+static scpi_result_t decoy_list(scpi_t * c) {
+    scpi_parameter_t p; scpi_bool_t rg; int32_t f, t; int i;
+    if (!SCPI_Parameter(c, &p, TRUE)) return SCPI_RES_ERR;
+    for (i = 0; i < 4; i++) {
+        scpi_expr_result_t r = SCPI_ExprNumericListEntryInt(c, &p, i, &rg, &f, &t);
+        if (r != SCPI_EXPR_OK) { decoy_log_n += snprintf(decoy_log + decoy_log_n, sizeof decoy_log - (size_t) decoy_log_n, "<%d>", (int) r); break; }
+        if (rg) decoy_log_n += snprintf(decoy_log + decoy_log_n, sizeof decoy_log - (size_t) decoy_log_n, "(%ld:%ld)", (long) f, (long) t);
+        else decoy_log_n += snprintf(decoy_log + decoy_log_n, sizeof decoy_log - (size_t) decoy_log_n, "(%ld)", (long) f);
+    }
+    return SCPI_RES_OK;
+}
+static scpi_result_t decoy_q(scpi_t * c) { SCPI_ResultInt32(c, 15); SCPI_ResultText(c, "m\"q"); SCPI_ResultArbitraryBlock(c, "ab", 2); return SCPI_RES_OK; }
+static const scpi_command_t decoy_cmds[] = { { "DECoy#:NUMber#", decoy_num, 3 }, { "DECoy:LIST", decoy_list, 4 }, { "DECoy:Q?", decoy_q, 5 }, { "SYSTem:ERRor[:NEXT]?", SCPI_SystemErrorNextQ, 0 }, SCPI_CMD_LIST_END };
+static const scpi_unit_def_t decoy_units[] = { { "FOO", SCPI_UNIT_VOLT, 3 }, { "V", SCPI_UNIT_SECOND, 10 }, SCPI_UNITS_LIST_END };
+void vh_decoy_enable(unsigned every) { decoy_every = every; }
+uint64_t vh_decoy_runs(void) { return decoy_runs; }
+static void decoy_run(void) {
+    static const char msg[] = "DEC7:NUM3 2 V;:DEC:LIST (5,1:2);Q?;:DEC:NOPE;:SYST:ERR?\n";
+    static const char want_log[] = "[7,3|20](5)(1:2)<2>"; /* "V" means 10 seconds in the decoy's own unit table (which has no name for plain seconds); NO_MORE after two entries */
+#if VH_HAS_INFO
+    static const char want_out[] = "15,\"m\"\"q\",#12ab;-113,\"Undefined header;:DEC:NOPE;\"\r\n"; /* the library reports the unit as written, separator included */
+#else
+    static const char want_out[] = "15,\"m\"\"q\",#12ab;-113,\"Undefined header\"\r\n";
+#endif
+    if (decoy_busy) return;
+    decoy_busy = 1;
+    if (!decoy) { decoy = vh_ctx_new(decoy_cmds, 96, 3, 80); decoy->ctx->units = decoy_units; decoy->log_enabled = 0; }
+    vh_ctx_clear_capture(decoy); decoy_log_n = 0; decoy_log[0] = 0;
+    { char * copy = (char *) malloc(sizeof msg - 1); memcpy(copy, msg, sizeof msg - 1); SCPI_Input(decoy->ctx, copy, (int) (sizeof msg - 1)); free(copy); }
+    decoy_runs++; vh_count("decoy.messages_run_on_a_second_context", 1);
+    if (strcmp(decoy_log, want_log) != 0 || decoy->out.len != sizeof want_out - 1 || memcmp(decoy->out.p, want_out, sizeof want_out - 1) != 0 || decoy->nflush != 1 || SCPI_ErrorCount(decoy->ctx) != 0) {
+        char key[64]; snprintf(key, sizeof key, "%s:second-context-disturbed", vh_args.property);
+        vh_violation(key, "a second context of the same process, running its own fixed message between the calls of this case, decoded [%s] and wrote \"%s\" (%u flushes, %d errors left); expected [%s] and \"%s\"",
+                     decoy_log, vh_esc(decoy->out.p ? decoy->out.p : "", decoy->out.len), decoy->nflush, (int) SCPI_ErrorCount(decoy->ctx), want_log, vh_esc(want_out, sizeof want_out - 1));
+        SCPI_ErrorClear(decoy->ctx);
+    }
+    decoy_busy = 0;
+}
+static void decoy_maybe(void) { if (decoy_every && !decoy_busy && (++decoy_tick % decoy_every) == 0) { int e = errno; decoy_run(); errno = e; } }
+
 scpi_bool_t vh_input(vh_ctx_t * v, const void * data, size_t len) {
     /* hand the library an exact-size copy so that over-reads of the caller's chunk trap */
     scpi_bool_t r;
     /* errno is process state the application may leave in any condition (an earlier overflowing strtol/strtod of its own):
      * the library's behaviour must not depend on it */
+    if (!decoy || v != decoy) decoy_maybe();
     { static unsigned turn; static const int vals[4] = { 0, ERANGE, 0, EDOM }; errno = vals[turn++ & 3]; }
     if (len == 0) return SCPI_Input(v->ctx, NULL, 0);
     {
@@ -355,6 +411,7 @@ scpi_result_t vh_handler(scpi_t * context) {
     if (v->log_enabled) { vh_buf_printf(&v->log, "H tag=%d hdr=", tag); vh_buf_add_escaped(&v->log, context->param_list.cmd_raw.data, context->param_list.cmd_raw.length); vh_buf_addc(&v->log, '\n'); }
     if (!sig) return SCPI_RES_OK;
     if (vh_nested_hook) vh_nested_hook(context, 0);
+    decoy_maybe();
     if (sig->want_numbers) {
         size_t n = sig->want_numbers, k; int32_t * nums = (int32_t *) malloc(sizeof(int32_t) * n);
         scpi_bool_t ok;
@@ -377,6 +434,7 @@ scpi_result_t vh_handler(scpi_t * context) {
         }
     }
     if (vh_nested_hook) vh_nested_hook(context, 1);
+    decoy_maybe();
     limit = sig->nouts;
     if (sig->verdict != VV_OK && sig->fail_after < limit) limit = sig->fail_after;
     for (i = 0; i < limit; i++) { run_out(context, &sig->outs[i]); if (inv) inv->nouts_done = i + 1; }
